@@ -3,3 +3,4 @@ import PyhmsVerif.Model.F64
 import PyhmsVerif.Model.Repair
 import PyhmsVerif.Model.Fit
 import PyhmsVerif.Model.Problem
+import PyhmsVerif.Model.Select
